@@ -243,6 +243,78 @@ def _norm_key_expr(e: ast.AST, casing_name: str, field_name: str) -> str:
     return ast.unparse(R().visit(copy.deepcopy(e)))
 
 
+def _resolve_name_table(mod, fn: ast.AST, expr: ast.AST):
+    """`X[f]` where the local X was obtained from a method M(arg) of the class metadata that returns the table
+    {name: E(arg, name) for name in <all fields>} (possibly through a memo that is only ever filled with M's own results):
+    the expression E(arg, f).  None when the shape is not that."""
+    import copy
+    if not (isinstance(expr, ast.Subscript) and isinstance(expr.value, ast.Name) and isinstance(expr.slice, ast.Name)):
+        return None
+    asg = [a for a in ast.walk(fn) if isinstance(a, ast.Assign) and len(a.targets) == 1 and isinstance(a.targets[0], ast.Name) and a.targets[0].id == expr.value.id]
+    if len(asg) != 1 or not isinstance(asg[0].value, ast.Call) or not isinstance(asg[0].value.func, ast.Attribute) or len(asg[0].value.args) != 1 or asg[0].value.keywords:
+        return None
+    call = asg[0].value
+    q = f"ProtoClassMetadata.{call.func.attr}"
+    if not mod.has(q):
+        return None
+    m = mod.func(q)
+    params = [a.arg for a in m.args.args]
+    if len(params) != 2:
+        return None
+    p_arg = params[1]
+    comps = []
+    memo_attrs = set()
+    for r in [n for n in ast.walk(m) if isinstance(n, ast.Return) and n.value is not None]:
+        v = r.value
+        if isinstance(v, ast.DictComp) and len(v.generators) == 1 and not v.generators[0].ifs and isinstance(v.generators[0].target, ast.Name) \
+                and isinstance(v.key, ast.Name) and v.key.id == v.generators[0].target.id and "meta_by_field_name" in ast.unparse(v.generators[0].iter):
+            comps.append(v)
+        elif isinstance(v, ast.Subscript) and isinstance(v.value, ast.Attribute) and isinstance(v.value.value, ast.Name) and v.value.value.id == params[0] \
+                and isinstance(v.slice, ast.Name) and v.slice.id == p_arg:
+            memo_attrs.add(v.value.attr)
+        else:
+            return None
+    if len(comps) != 1:
+        return None
+    # a memo is fine when everything stored in it is M(<its key>)
+    init = mod.func("ProtoClassMetadata.__init__")
+    for attr in memo_attrs:
+        for n in ast.walk(init):
+            pairs = []
+            if isinstance(n, ast.Call) and isinstance(n.func, ast.Attribute) and n.func.attr == "update" and isinstance(n.func.value, ast.Attribute) and n.func.value.attr == attr:
+                for a in n.args:
+                    if isinstance(a, ast.Dict):
+                        pairs += list(zip(a.keys, a.values))
+                    else:
+                        return None
+            elif isinstance(n, ast.Assign) and isinstance(n.targets[0], ast.Subscript) and isinstance(n.targets[0].value, ast.Attribute) and n.targets[0].value.attr == attr:
+                pairs.append((n.targets[0].slice, n.value))
+            elif isinstance(n, ast.Assign) and isinstance(n.targets[0], ast.Attribute) and n.targets[0].attr == attr:
+                if isinstance(n.value, ast.Dict):
+                    pairs += list(zip(n.value.keys, n.value.values))
+                else:
+                    return None
+            for k, v in pairs:
+                src = v
+                if isinstance(v, ast.Name):
+                    a2 = [a for a in ast.walk(init) if isinstance(a, ast.Assign) and len(a.targets) == 1 and isinstance(a.targets[0], ast.Name) and a.targets[0].id == v.id]
+                    src = a2[0].value if len(a2) == 1 else None
+                if not (isinstance(src, ast.Call) and isinstance(src.func, ast.Attribute) and src.func.attr == call.func.attr and len(src.args) == 1
+                        and k is not None and ast.unparse(src.args[0]) == ast.unparse(k)):
+                    return None
+    comp = comps[0]
+    gen_var = comp.generators[0].target.id
+
+    class R(ast.NodeTransformer):
+        def visit_Name(self, n):
+            if n.id == p_arg:
+                return copy.deepcopy(call.args[0])
+            if n.id == gen_var:
+                return ast.Name(expr.slice.id, ast.Load())
+            return n
+    return R().visit(copy.deepcopy(comp.value))
+
+
 def rule_I3(ctx, rule: str = "I3") -> None:
     """key retraction: every key to_dict / to_pydict can emit for a field is a key of the per-class table that from_dict /
     from_pydict consult first, built with the very same expression over every casing; other spellings fall back to the
@@ -264,6 +336,10 @@ def rule_I3(ctx, rule: str = "I3") -> None:
         for n in ast.walk(loop):
             if isinstance(n, ast.Assign) and len(n.targets) == 1 and isinstance(n.targets[0], ast.Name) and casing_param in {x.id for x in ast.walk(n.value) if isinstance(x, ast.Name)}:
                 key_vars[n.targets[0].id] = n.value
+            elif isinstance(n, ast.Assign) and len(n.targets) == 1 and isinstance(n.targets[0], ast.Name):
+                res = _resolve_name_table(mod, fn, n.value)
+                if res is not None and casing_param in {x.id for x in ast.walk(res) if isinstance(x, ast.Name)}:
+                    key_vars[n.targets[0].id] = res
         stores = [n for n in ast.walk(loop) if isinstance(n, ast.Subscript) and isinstance(n.ctx, ast.Store) and isinstance(n.value, ast.Name) and n.value.id == "output"]
         used = set()
         for st in stores:
@@ -339,6 +415,22 @@ def rule_I3(ctx, rule: str = "I3") -> None:
 
     name_keyed: set = set()
     for _ in range(2):
+        # {field.name: .. for field in fields} / {name: .. for name, meta in by_name.items()}: keyed by every field name too
+        for a_ in ast.walk(init):
+            if isinstance(a_, (ast.Assign, ast.AnnAssign)) and isinstance(getattr(a_, "value", None), ast.DictComp) and len(a_.value.generators) == 1 and not a_.value.generators[0].ifs:
+                tgt_ = a_.targets[0] if isinstance(a_, ast.Assign) else a_.target
+                gen = a_.value.generators[0]
+                it_ = ast.unparse(gen.iter)
+                key_ = ast.unparse(a_.value.key)
+                if not isinstance(tgt_, ast.Name):
+                    continue
+                if it_ in field_lists and isinstance(gen.target, ast.Name) and key_ == f"{gen.target.id}.name":
+                    name_keyed.add(tgt_.id)
+                base_ = it_[:-8] if it_.endswith(".items()") else it_[:-7] if it_.endswith(".keys()") else it_
+                if base_ in name_keyed:
+                    first = gen.target.elts[0] if isinstance(gen.target, ast.Tuple) else gen.target
+                    if isinstance(first, ast.Name) and key_ == first.id and (it_.endswith(".items()") or not isinstance(gen.target, ast.Tuple)):
+                        name_keyed.add(tgt_.id)
         for loop in all_loops:
             nt = name_terms(loop)
             for st in loop.body:
@@ -368,6 +460,9 @@ def rule_I3(ctx, rule: str = "I3") -> None:
                 keyexpr, tgt, val = c.targets[0].slice, c.targets[0].value, c.value
             if keyexpr is None or ast.unparse(tgt) != src_var or ast.unparse(val) not in nt:
                 continue
+            res_ = _resolve_name_table(mod, init, keyexpr)
+            if res_ is not None:
+                keyexpr = res_
             ke = subst(keyexpr, nt)
             # which casing function is applied to the field name in the key?
             inner = next((n for n in ast.walk(loop) if isinstance(n, ast.For) and n is not loop and isinstance(n.target, ast.Name) and isinstance(n.iter, (ast.Tuple, ast.List))
